@@ -131,6 +131,11 @@ class Engine(GenericConcreteEngine[Callable[..., Any]]):
                     return tree, commutator.done, commutator.messages
                 else:
                     upstream, done, messages = self.backtrack_unary(commutator.first, target, preferred)
+                    if not done and commutator.second is not tree.operation:
+                        # The insertion upstream was only partial, so the
+                        # relation upstream may still expose columns that this
+                        # node's operation hides; do not replace the node.
+                        return tree, False, commutator.messages + messages
                     if upstream is not target or (done and commutator.second is not tree.operation):
                         # Rebuild this node when something was inserted
                         # upstream, or when the insertion was a no-op but the
